@@ -215,6 +215,7 @@ struct Run<V: VringT<GM> + Clone + Send + Sync + 'static> {
     masks: Vec<u64>,
     nq: usize,
     listener_fds: HashMap<(usize, u64), EventFd>,
+    panics0: u64,
 }
 
 fn vres(r: vhost::Result<()>) -> Val {
@@ -434,6 +435,7 @@ impl<V: VringT<GM> + Clone + Send + Sync + 'static> Run<V> {
                 }
                 None => Val::s("no-listener"),
             },
+            "panics" => n(crate::PANICS.load(std::sync::atomic::Ordering::SeqCst) - self.panics0),
             "backend_log" => {
                 let s = self.sh.lock().unwrap();
                 Val::L(vec![
@@ -521,7 +523,7 @@ fn run_with<V: VringT<GM> + Clone + Send + Sync + 'static>(cfg: &[Val], steps: &
     let fe = Frontend::from_stream(sock, 0x8000);
     fe.set_hdr_flags(VhostUserHeaderFlag::NEED_REPLY);
     let _ = fe.get_features();
-    let mut run = Run { daemon, fe, sh: sh.clone(), probes, rx, nthreads, fdt: FdTable::new(), evfds: HashMap::new(), masks, nq, listener_fds: HashMap::new() };
+    let mut run = Run { daemon, fe, sh: sh.clone(), probes, rx, nthreads, fdt: FdTable::new(), evfds: HashMap::new(), masks, nq, listener_fds: HashMap::new(), panics0: crate::PANICS.load(std::sync::atomic::Ordering::SeqCst) };
     let mut out = vec![];
     for st in steps {
         let parts = match st.as_l() {
@@ -538,7 +540,7 @@ fn run_with<V: VringT<GM> + Clone + Send + Sync + 'static>(cfg: &[Val], steps: &
         let control = !matches!(
             kind.as_str(),
             "kick" | "close_evfd" | "read_call" | "add_listener" | "fire_listener" | "queue_state" | "add_used" | "signal" | "write_mem" | "read_mem" | "regions" | "par_write"
-                | "backend_log" | "guest_write" | "guest_read" | "file_size"
+                | "backend_log" | "panics" | "guest_write" | "guest_read" | "file_size"
         );
         if control {
             let _ = run.fe.get_features();
